@@ -124,6 +124,14 @@ func firstLive(t *tab, d []bool) value {
 
 func simplify(t *tab) value {
 	d := rs.dom(t.v)
+	// an entry that is itself a table over the same variable denotes its own i-th entry
+	for i, b := range d {
+		if b {
+			if inner, ok := t.vals[i].(*tab); ok && inner.v.id == t.v.id && i < len(inner.vals) {
+				t.vals[i] = inner.vals[i]
+			}
+		}
+	}
 	var first value
 	n := 0
 	for i, b := range d {
@@ -270,8 +278,47 @@ func allASCII(s string) bool {
 }
 
 // relation between two tables over different variables, via integer keys
+// are all live entries of t of the same scalar kind as its first live entry?
+func uniformScalar(t *tab, d []bool) bool {
+	kind := -1
+	for i, l := range d {
+		if !l {
+			continue
+		}
+		k := -1
+		switch t.vals[i].(type) {
+		case string:
+			k = 0
+		case int64:
+			k = 1
+		case bool:
+			k = 2
+		case *value:
+			k = 3
+		}
+		if k < 0 || (kind >= 0 && k != kind) {
+			return false
+		}
+		kind = k
+	}
+	return true
+}
+
 func twoVar(op token.Token, a, b *tab, fold bool) value {
 	da, db := rs.dom(a.v), rs.dom(b.v)
+	if !uniformScalar(a, da) || !uniformScalar(b, db) {
+		return nil // nested tables or mixed kinds: the caller falls back to forking
+	}
+	switch firstLive(a, da).(type) {
+	case string:
+		if _, ok := firstLive(b, db).(string); !ok {
+			return nil
+		}
+	case int64:
+		if _, ok := firstLive(b, db).(int64); !ok {
+			return nil
+		}
+	}
 	ka, kb := make([]int64, len(da)), make([]int64, len(db))
 	const W = 16
 	switch firstLive(a, da).(type) {
